@@ -111,19 +111,22 @@ class MockSS: public ola::io::SelectServerInterface {
 
 struct World {
   MemoryBlockPool *pool;
+  MemoryBlockPool *pool2;          // 'C' payloads: pool B
+  vector<int> qpool, spool;        // pool index of every buffer
   vector<IOQueue*> q;
   vector<IOStack*> s;
   ScriptedDescriptor *desc;
   MockSS *ss;
   ola::io::NonBlockingSender *sender;   // q[0] aliases sender->m_output_buffer when set
   int fd;
-  World(): pool(NULL), desc(NULL), ss(NULL), sender(NULL), fd(-1) {}
+  World(): pool(NULL), pool2(NULL), desc(NULL), ss(NULL), sender(NULL), fd(-1) {}
   ~World() {
     for (size_t i = sender ? 1 : 0; i < q.size(); i++) delete q[i];
     delete sender; delete desc; delete ss;
     if (fd >= 0) close(fd);
     for (size_t i = 0; i < s.size(); i++) delete s[i];
     delete pool;
+    delete pool2;
   }
 };
 
@@ -238,10 +241,22 @@ static string handle(const string &payload) {
   if (!a.empty() && a[0][0] == 'P') return crosspool(a);
   if (a.size() < 4) return "bad-payload";
   const bool ext = a[0][0] == 'X';
-  const size_t first = ext ? 5 : 4;
+  const bool multi = a[0][0] == 'C';   // "<Clabel> <bsA> <bsB> <qmask> <smask> ops": two pools
+  const size_t first = (ext || multi) ? 5 : 4;
   if (a.size() < first || (ext && vh::num(a[2]) < 1)) return "bad-payload";
   World w;
   w.pool = new MemoryBlockPool(vh::num(a[1]));
+  if (multi) {
+    w.pool2 = new MemoryBlockPool(vh::num(a[2]));
+    for (size_t i = 0; i < a[3].size() && a[3] != "-"; i++) {
+      w.qpool.push_back(a[3][i] - 'A');
+      w.q.push_back(new IOQueue(a[3][i] == 'A' ? w.pool : w.pool2));
+    }
+    for (size_t i = 0; i < a[4].size() && a[4] != "-"; i++) {
+      w.spool.push_back(a[4][i] - 'A');
+      w.s.push_back(new IOStack(a[4][i] == 'A' ? w.pool : w.pool2));
+    }
+  }
   if (ext) {
     w.fd = open("/dev/null", O_WRONLY);
     w.desc = new ScriptedDescriptor(w.fd);
@@ -249,8 +264,8 @@ static string handle(const string &payload) {
     w.sender = new ola::io::NonBlockingSender(w.desc, w.ss, w.pool, vh::num(a[4]));
     w.q.push_back(&w.sender->m_output_buffer);
   }
-  for (unsigned i = ext ? 1 : 0; i < vh::num(a[2]); i++) w.q.push_back(new IOQueue(w.pool));
-  for (unsigned i = 0; i < vh::num(a[3]); i++) w.s.push_back(new IOStack(w.pool));
+  for (unsigned i = ext ? 1 : 0; !multi && i < vh::num(a[2]); i++) w.q.push_back(new IOQueue(w.pool));
+  for (unsigned i = 0; !multi && i < vh::num(a[3]); i++) w.s.push_back(new IOStack(w.pool));
   std::ostringstream res;
   res << "class=" << a[0];
   for (size_t k = first; k < a.size(); k++) {
@@ -279,7 +294,9 @@ static string handle(const string &payload) {
     } else if (op == "qm") { w.q[x]->AppendMove(w.q[n]);
     } else if (op == "sm") { w.s[x]->MoveToIOQueue(w.q[n]);
     } else if (op == "qc") { w.q[x]->Clear();
-    } else if (op == "sd") { delete w.s[x]; w.s[x] = new IOStack(w.pool);
+    } else if (op == "sd") {
+      delete w.s[x];
+      w.s[x] = new IOStack(multi && w.spool[x] == 1 ? w.pool2 : w.pool);
     } else if (op == "pg") { w.pool->Purge();
     } else if (op == "qi") { ret = be_read(w.q[x], n);
     } else if (op == "mb") { ret = membuf(f[1], f.size() > 2 ? f[2] : "");
@@ -303,6 +320,19 @@ static string handle(const string &payload) {
     for (size_t j = 0; j < w.s.size(); j++) {
       spec << "/"; if (j || !w.q.empty()) inner << "/";
       observe(w.s[j], "s" + vh::str(j), &spec, &inner, &blocks, &nonempty);
+    }
+    if (multi) {
+      res << ";o" << (k - first) << "=" << ret << spec.str() << "/held-nonempty" << (nonempty ? 1 : 0);
+      res << ";a" << (k - first) << "=";
+      for (int pk = 0; pk < 2; pk++) {
+        MemoryBlockPool *pp = pk ? w.pool2 : w.pool;
+        unsigned held = 0;
+        for (size_t i = 0; i < w.q.size(); i++) if (w.qpool[i] == pk) held += w.q[i]->m_blocks.size();
+        for (size_t j = 0; j < w.s.size(); j++) if (w.spool[j] == pk) held += w.s[j]->m_blocks.size();
+        res << (pk ? "/" : "") << "P" << pk << ":" << pp->BlocksAllocated() << "," << pp->FreeBlocks() << "," << held;
+      }
+      res << ";i" << (k - first) << "=" << inner.str();
+      continue;
     }
     unsigned fr = w.pool->FreeBlocks(), al = w.pool->BlocksAllocated();
     res << ";o" << (k - first) << "=" << ret << spec.str() << "/acct" << (al == fr + blocks ? 1 : 0)
